@@ -9,6 +9,7 @@ ROOT = os.path.dirname(os.path.dirname(os.path.abspath(__file__)))
 COQ = os.path.join(ROOT, "coq")
 FAMILIES = ["AeroPoint", "AerostructPoint", "SpatialBeamAlone", "MPhys"]
 DIRS = ["aerodynamics", "structures", "functionals", "geometry", "transfer", "common", "integration", "mphys"]
+ODIRS = ["aerodynamics", "structures", "functionals", "geometry", "transfer", "integration", "mphys"]
 PROPS = {
     "C02": (["AeroPoint", "AerostructPoint", "SpatialBeamAlone"], []),
     "C04": (["AeroPoint", "AerostructPoint", "SpatialBeamAlone"], []),
@@ -37,12 +38,12 @@ def main():
         open(os.path.join(COQ, "Real", name + ".v"), "w").write('''(* %s.v - GENERATED once by harness/gen_ties.py: the data-flow graphs of the canonical "%s" models regenerated from the live
    groups are the reviewed ones (finite comparison of lists of strings, by computation). *)
 From Coq Require Import String List Bool.
-From OAS Require Import Wiring WiringReviewed.
+From OAS Require Import TieBase Wiring WiringReviewed.
 Import ListNotations.
 Open Scope string_scope.
 Definition wiring_family_%s (w : list (string * list (string * string))) := filter (fun p => prefix "%s" (fst p)) w.
 Lemma wiring_%s_reviewed : wiring_family_%s gen_wiring = wiring_family_%s reviewed_wiring.
-Proof. reflexivity. Qed.
+Proof. apply wiring_eqb_sound. vm_compute. reflexivity. Qed.
 Lemma wiring_%s_nonempty : wiring_family_%s reviewed_wiring <> [].
 Proof. discriminate. Qed.
 ''' % (name, fam, fam, fam, fam, fam, fam, fam, fam))
@@ -52,33 +53,56 @@ Proof. discriminate. Qed.
         open(os.path.join(COQ, "Real", name + ".v"), "w").write('''(* %s.v - GENERATED once by harness/gen_ties.py: the declared units of every input and output of the classes of
    openaerostruct/%s/, regenerated from the source, are the reviewed ones (by computation). *)
 From Coq Require Import String List Bool.
-From OAS Require Import IOUnits IOUnitsReviewed.
+From OAS Require Import TieBase IOUnits IOUnitsReviewed.
 Import ListNotations.
 Open Scope string_scope.
 Definition units_dir_%s (u : list (string * string * string * string * string)) :=
   filter (fun r => match r with (f, _, _, _, _) => prefix "%s/" f end) u.
 Lemma units_%s_reviewed : units_dir_%s gen_io_units = units_dir_%s reviewed_io_units.
-Proof. reflexivity. Qed.
+Proof. apply units_eqb_sound. vm_compute. reflexivity. Qed.
 Lemma units_%s_nonempty : units_dir_%s reviewed_io_units <> [].
 Proof. discriminate. Qed.
 ''' % (name, d, d, d, d, d, d, d, d))
         files.append("Real/%s.v" % name)
+    for d in ODIRS:
+        name = "Tie_options_%s" % d
+        open(os.path.join(COQ, "Real", name + ".v"), "w").write('''(* %s.v - GENERATED once by harness/gen_ties.py: the declared option defaults of the classes of openaerostruct/%s/,
+   regenerated from the source, are the reviewed ones (by computation). *)
+From Coq Require Import String List Bool.
+From OAS Require Import TieBase OptionDefaults OptionDefaultsReviewed.
+Import ListNotations.
+Open Scope string_scope.
+Definition options_dir_%s (u : list (string * string * string * string)) :=
+  filter (fun r => match r with (f, _, _, _) => prefix "%s/" f end) u.
+Lemma options_%s_reviewed : options_dir_%s gen_option_defaults = options_dir_%s reviewed_option_defaults.
+Proof. apply opts_eqb_sound. vm_compute. reflexivity. Qed.
+Lemma options_%s_nonempty : options_dir_%s reviewed_option_defaults <> [].
+Proof. discriminate. Qed.
+''' % (name, d, d, d, d, d, d, d, d))
+        files.append("Real/%s.v" % name)
+    OPTS = {"C05": ["aerodynamics"], "C06": ["aerodynamics", "functionals"], "C08": ["aerodynamics"], "C09": ["aerodynamics"], "C10": ["structures"], "C11": ["transfer", "aerodynamics"],
+            "C12": ["integration"], "C13": ["geometry"], "C14": ["geometry"], "C15": ["structures"], "C16": ["structures", "functionals"], "C17": ["functionals"],
+            "C18": ["aerodynamics"], "C19": ["mphys", "aerodynamics"], "C02": ["integration", "structures"], "C04": ["integration"], "C07": ["geometry"]}
     for pid, (fams, dirs) in sorted(PROPS.items()):
-        mods = ["Tie_wiring_%s" % f for f in fams] + ["Tie_units_%s" % d for d in dirs]
+        odirs = OPTS.get(pid, [])
+        mods = ["Tie_wiring_%s" % f for f in fams] + ["Tie_units_%s" % d for d in dirs] + ["Tie_options_%s" % d for d in odirs]
         body = ['''(* %s_ties.v - GENERATED once by harness/gen_ties.py.  Translator ties of %s: structural facts of the code that the models and
    oracles of this property rest on, regenerated from /repo on every run, equal the reviewed ones:
      - group wiring (which output feeds which input, as OpenMDAO resolves it) of the canonical models of: %s
      - unit contract (declared units of every input / output) of the classes in: %s
-   An edit that re-wires a group or drops / changes a unit in these areas breaks the obligation; the oracles of the property
-   then look for the failing input. *)
+     - option defaults of the classes in: %s
+   An edit that re-wires a group, drops / changes a unit or changes a default in these areas breaks the obligation; the oracles of
+   the property then look for the failing input. *)
 From Coq Require Import String List Bool.
-From OAS Require Import Wiring WiringReviewed IOUnits IOUnitsReviewed %s.
+From OAS Require Import Wiring WiringReviewed IOUnits IOUnitsReviewed OptionDefaults OptionDefaultsReviewed %s.
 Import ListNotations.
-''' % (pid, pid, ", ".join(fams) or "-", ", ".join(dirs) or "-", " ".join(mods))]
+''' % (pid, pid, ", ".join(fams) or "-", ", ".join(dirs) or "-", ", ".join(odirs) or "-", " ".join(mods))]
         for f in fams:
             body.append("Theorem %s_wiring_of_%s_models_is_the_reviewed_one :\n  wiring_family_%s gen_wiring = wiring_family_%s reviewed_wiring /\\ wiring_family_%s reviewed_wiring <> [].\nProof. split; [exact wiring_%s_reviewed | exact wiring_%s_nonempty]. Qed.\nPrint Assumptions %s_wiring_of_%s_models_is_the_reviewed_one.\n" % (pid, f, f, f, f, f, f, pid, f))
         for d in dirs:
             body.append("Theorem %s_unit_contract_of_%s_is_the_reviewed_one :\n  units_dir_%s gen_io_units = units_dir_%s reviewed_io_units /\\ units_dir_%s reviewed_io_units <> [].\nProof. split; [exact units_%s_reviewed | exact units_%s_nonempty]. Qed.\nPrint Assumptions %s_unit_contract_of_%s_is_the_reviewed_one.\n" % (pid, d, d, d, d, d, d, pid, d))
+        for d in odirs:
+            body.append("Theorem %s_option_defaults_of_%s_are_the_reviewed_ones :\n  options_dir_%s gen_option_defaults = options_dir_%s reviewed_option_defaults /\\ options_dir_%s reviewed_option_defaults <> [].\nProof. split; [exact options_%s_reviewed | exact options_%s_nonempty]. Qed.\nPrint Assumptions %s_option_defaults_of_%s_are_the_reviewed_ones.\n" % (pid, d, d, d, d, d, d, pid, d))
         open(os.path.join(COQ, "Props", "%s_ties.v" % pid), "w").write("\n".join(body))
         files.append("Props/%s_ties.v" % pid)
     return files
